@@ -118,7 +118,7 @@ func getDenseWorkspace(r, c int, clear bool) *Dense {
 // workspace pool. putDenseWorkspace must not be called with a matrix
 // where references to the underlying data slice have been kept.
 func putDenseWorkspace(w *Dense) {
-	verifhook.Emit("pool", "put", 1, verifhook.Ptr(w), 0)
+	verifhook.Emit("pool", "put", 1, verifhook.Ptr(w), int64(cap(w.mat.Data)))
 	poolDense[poolFor(uint(cap(w.mat.Data)))].Put(w)
 }
 
@@ -144,7 +144,7 @@ func getSymDenseWorkspace(n int, clear bool) *SymDense {
 // workspace pool. putSymDenseWorkspace must not be called with a matrix
 // where references to the underlying data slice have been kept.
 func putSymDenseWorkspace(s *SymDense) {
-	verifhook.Emit("pool", "put", 2, verifhook.Ptr(s), 0)
+	verifhook.Emit("pool", "put", 2, verifhook.Ptr(s), int64(cap(s.mat.Data)))
 	poolSymDense[poolFor(uint(cap(s.mat.Data)))].Put(s)
 }
 
@@ -178,7 +178,7 @@ func getTriDenseWorkspace(n int, kind TriKind, clear bool) *TriDense {
 // workspace pool. putTriWorkspace must not be called with a matrix
 // where references to the underlying data slice have been kept.
 func putTriWorkspace(t *TriDense) {
-	verifhook.Emit("pool", "put", 3, verifhook.Ptr(t), 0)
+	verifhook.Emit("pool", "put", 3, verifhook.Ptr(t), int64(cap(t.mat.Data)))
 	poolTriDense[poolFor(uint(cap(t.mat.Data)))].Put(t)
 }
 
@@ -201,7 +201,7 @@ func getVecDenseWorkspace(n int, clear bool) *VecDense {
 // workspace pool. putVecDenseWorkspace must not be called with a matrix
 // where references to the underlying data slice have been kept.
 func putVecDenseWorkspace(v *VecDense) {
-	verifhook.Emit("pool", "put", 4, verifhook.Ptr(v), 0)
+	verifhook.Emit("pool", "put", 4, verifhook.Ptr(v), int64(cap(v.mat.Data)))
 	poolVecDense[poolFor(uint(cap(v.mat.Data)))].Put(v)
 }
 
@@ -228,7 +228,7 @@ func getCDenseWorkspace(r, c int, clear bool) *CDense {
 // workspace pool. putWorkspace must not be called with a matrix
 // where references to the underlying data slice have been kept.
 func putCDenseWorkspace(w *CDense) {
-	verifhook.Emit("pool", "put", 5, verifhook.Ptr(w), 0)
+	verifhook.Emit("pool", "put", 5, verifhook.Ptr(w), int64(cap(w.mat.Data)))
 	poolCDense[poolFor(uint(cap(w.mat.Data)))].Put(w)
 }
 
@@ -248,7 +248,7 @@ func getFloat64s(l int, clear bool) []float64 {
 // workspace pool. putFloat64s must not be called with a slice
 // where references to the underlying data have been kept.
 func putFloat64s(w []float64) {
-	verifhook.Emit("pool", "put", 6, verifhook.Ptr(w), 0)
+	verifhook.Emit("pool", "put", 6, verifhook.Ptr(w), int64(cap(w)))
 	poolFloat64s[poolFor(uint(cap(w)))].Put(&w)
 }
 
